@@ -30,6 +30,11 @@ CHECKS = {
             "executed with the real `wormhole send` and `wormhole receive` commands on the simulated reactor (files around the "
             "16 KiB record boundary, odd names, directory trees, text), faults injected at byte offsets of the transit stream; "
             "XferObs.tla decides on the reported outcomes and the receiver's file system", "3/C04"),
+    "C05": ("RecvDest.tla: the destination decision table over abstract name classes x --output-file state x accept-file x "
+            "pre-existing objects; TLC checks the statement on the whole abstract space (decoration of the offered name is "
+            "irrelevant, existing destination fails, replacement only when named, directories never deleted, hostile zip members "
+            "abort) and prints every case; the real cmd_receive.Receiver runs each case in a sandbox whose before/after snapshot "
+            "(including the parent directory) is judged by RecvDestObs.tla", "3/C05"),
     "C06": ("TransitRecords.tla: TLC checks PrefixInv / NothingAfterTamper / HungUpWhenBad / NoReadLeftBehind / ConsumerTruth under every "
             "frame-level adversary operation; a covering family (every operation x position x records already received) and "
             "simulated behaviours are executed on real, really-negotiated Connection pairs in both directions under five chunkings "
@@ -89,6 +94,8 @@ def main():
 NOTES = {
     "C04": "payloads of 0..3 records in TLC, real payloads up to ~50 KB; receiver runs with --accept-file --no-listen; faulty "
            "acknowledgements are produced by patching the peer receiver; C06 is the interface assumption of the model",
+    "C05": "POSIX path semantics; Receiver methods driven directly with crafted offers/archives (mailbox and transit legs are C04's); "
+           "the receiver's own <destination>.tmp is part of the destination's footprint (a stale one is overwritten by design)",
     "C06": "SecretBox assumed secure; <=4 records and <=2 adversary operations per direction in TLC; an altered length prefix is "
            "judged only once a complete manipulated frame has been consumed",
     "C07": "<=3 contenders per configuration, a unit split at most once, scripted relay and strangers; HKDF-derived handshakes "
